@@ -43,25 +43,27 @@ def gen_chain(rng):
     for j, pl in enumerate(places):
         last = (j == len(places) - 1)
         params = () if last else ("foo",)
-        ml = (not last) and rng.random() < 0.1
+        shape = rng.random()
+        ml = (not last) and shape < 0.1
+        ol = (not last) and 0.1 <= shape < 0.25       # the override written on ONE line: its first line is its last
         if pl == "same":
-            wsgen.rand_fixture(rng, pf(upath), "foo", params=params, multiline=ml)
+            wsgen.rand_fixture(rng, pf(upath), "foo", params=params, multiline=ml, oneline=ol)
         elif pl.startswith("conf"):
             lvl = int(pl[4:])
             cpath = wsgen.join(dirs[lvl], "conftest.py")
             if rng.random() < 0.25:
                 mod = "fxm%d" % lvl
-                wsgen.rand_fixture(rng, pf(wsgen.join(dirs[lvl], mod + ".py")), "foo", params=params, multiline=ml)
+                wsgen.rand_fixture(rng, pf(wsgen.join(dirs[lvl], mod + ".py")), "foo", params=params, multiline=ml, oneline=ol)
                 pf(cpath).add("from .%s import *" % mod)
             else:
                 if above and not last:
                     wsgen.rand_fixture(rng, pf(cpath), "uses_above", params=("foo",))
-                wsgen.rand_fixture(rng, pf(cpath), "foo", params=params, multiline=ml)
+                wsgen.rand_fixture(rng, pf(cpath), "foo", params=params, multiline=ml, oneline=ol)
         elif pl == "plugin":
-            wsgen.rand_fixture(rng, pf("plug/plugmod.py"), "foo", params=params, multiline=ml)
+            wsgen.rand_fixture(rng, pf("plug/plugmod.py"), "foo", params=params, multiline=ml, oneline=ol)
             ws.plugin.append("plug/plugmod.py")
         else:
-            wsgen.rand_fixture(rng, pf("vv/lib/site-packages/tp/plugin.py"), "foo", params=params, multiline=ml)
+            wsgen.rand_fixture(rng, pf("vv/lib/site-packages/tp/plugin.py"), "foo", params=params, multiline=ml, oneline=ol)
             if rng.random() < 0.7:
                 ws.plugin.append("vv/lib/site-packages/tp/plugin.py")
     uf = pf(upath)
